@@ -396,4 +396,30 @@ def _min_fold_over_all(fn, res, val):
         if a[0] == "call" and "Instant" in a[1] and a[1].endswith("::add"):
             continue
         return None
-    return "min-fold over all records of the name" if seen_elem else None
+    if not seen_elem:
+        return None
+    # ... and it folds towards the *smaller* value: an element replaces the accumulator only behind `element < accumulator`
+    if pe[0] == "phi" and len(pe) > 2:
+        acc_l = pe[2]
+        conds = A.Conds(fn, res)
+        for d in fn.defs().get(acc_l, []):
+            if d[2] == "partial":
+                continue
+            e = A.peel(res._def_expr(d, 0))
+            if e[0] == "call" and (e[1].endswith("::min") or (e[4] or "").endswith("Ord::min")):
+                continue                                   # acc = acc.min(x)
+            ps = A.path_str(e, open_root=True)
+            if ps is None or not ps.endswith(".records.[].[].1"):
+                continue
+            def smaller(fc, e=e):
+                if fc[0] != "cmp":
+                    return False
+                for op, x, y in ((fc[1], fc[2], fc[3]), (A.SWAP[fc[1]], fc[3], fc[2])):
+                    if op in ("Lt", "Le") and (A.same(x, e) or A.strip_refs(A.peel(x)) == A.strip_refs(e)):
+                        py = A.peel(y)
+                        if (py[0] == "phi" and len(py) > 2 and py[2] == acc_l) or py[0] == "loop":
+                            return True
+                return False
+            if not conds.guarded(d[0], smaller)[0]:
+                return None
+    return "min-fold over all records of the name"
